@@ -40,6 +40,10 @@ def run(ck):
     for g in scope.p_scope(ck, 11 if q else 13, 2, 4):
         if len(g["vals"]) >= 7 and g["k"] >= 2:
             g = dict(g); g["calls"] = calls_for(g, its=(10, 2)); groups.append(g)
+    # "medium" universe: every bag of 7-9 values in 0..4 into three bins (several rounds of dealing: where a rule applied to a whole round at once goes wrong)
+    for g in scope.p_scope(ck, 9 if q else 10, 4, 3):
+        if len(g["vals"]) >= 7 and g["k"] == 3:
+            g = dict(g); g["calls"] = calls_for(g, its=(10,)); groups.append(g); ck.cat("medium_universe")
     fam = gen.part_families(ck.rng, 300 if q else 15000, maxn=9 if q else 10, maxv=60, maxk=4)
     for g in fam:
         if g["k"] ** len(g["vals"]) > 1200000:
